@@ -6,10 +6,10 @@
     Statements only; each closed by [exact] of a lemma of proofs/WaitLoopProofs.v.
     Quantified over every script of children, every choice of removal callbacks
     running late, every pattern of futures completing on their own, any number
-    of rounds; running out of fuel is excluded by the statements (the loop's
-    termination is the liveness half, C04). *)
+    of rounds.  The loop also terminates: with the futures drawn from a finite
+    universe it is left within 4|U| + 2 rounds (it never runs out of fuel). *)
 From Coq Require Import List Arith.
-From S3V Require Import model.WaitLoop proofs.WaitLoopProofs.
+From S3V Require Import model.WaitLoop proofs.WaitLoopProofs proofs.WaitLoopTerm.
 Import ListNotations.
 
 (** When the loop is left, every future ever associated with the transfer has
@@ -47,3 +47,25 @@ Theorem C08_wait_loop_early_snapshot_refuted : exists sc init fuel s r,
   loop_early sc fuel (init_state init) init [] [] = (s, Exit, r) /\ pending s <> [].
 Proof. exact loop_early_refuted. Qed.
 Print Assumptions C08_wait_loop_early_snapshot_refuted.
+
+(** The loop terminates: when every future that can ever be associated belongs
+    to a finite universe [U] ([closed]: the children of every future are in [U]),
+    [4 * |U| + 2] rounds are enough -- whatever completes on its own and however
+    late removals run. *)
+Theorem C08_wait_loop_terminates : forall U sc init pre bg fuel,
+  closed U sc -> (forall x, In x init -> In x U) -> 4 * length U + 2 <= fuel ->
+  snd (fst (run sc init pre bg fuel)) = Exit.
+Proof. exact run_never_out_of_fuel. Qed.
+Print Assumptions C08_wait_loop_terminates.
+
+(** Total correctness: the loop is left, and then everything has completed. *)
+Theorem C08_wait_loop_total : forall U sc init pre bg fuel,
+  closed U sc -> (forall x, In x init -> In x U) -> 4 * length U + 2 <= fuel ->
+  exists s r, run sc init pre bg fuel = (s, Exit, r) /\ pending s = [].
+Proof.
+  intros U sc init pre bg fuel C HI Hf.
+  pose proof (run_never_out_of_fuel U sc init pre bg fuel C HI Hf) as H.
+  destruct (run sc init pre bg fuel) as [[s v] r] eqn:E. cbn in H. subst v.
+  exists s, r. split; [reflexivity | exact (run_exit_nothing_pending sc init pre bg fuel s r E)].
+Qed.
+Print Assumptions C08_wait_loop_total.
